@@ -360,15 +360,18 @@ def run_angles(case, out):
         out.check(pr.shape == (n, 3) and bool(np.all(np.abs(pr - zax) < 1e-9)), "visualize_rotations:not_z_axis_image", lambda: f"{pr[:1]} vs {zax[:1]}")
     ok, pr2 = call(out, "visualize_rotations", lambda: geom.visualize_rotations(srot.from_matrix(M), plot_rotations=False, radius=2.5))
     if ok:
-        out.check(bool(np.all(np.abs(np.asarray(pr2) - 2.5 * zax) < 1e-9)), "visualize_rotations:radius", "")
+        pr2 = np.asarray(pr2, float)
+        out.check(pr2.shape == (n, 3) and bool(np.all(np.abs(pr2 - 2.5 * zax) < 1e-9)), "visualize_rotations:radius", lambda: f"{pr2.shape} for {n} orientations")
     # no state may survive a call: the same questions again give the same answers
     ok, pr3 = call(out, "visualize_rotations", lambda: geom.visualize_rotations(srot.from_matrix(M), plot_rotations=False))
     if ok:
-        out.check(bool(np.all(np.abs(np.asarray(pr3) - zax) < 1e-9)), "visualize_rotations:result_depends_on_earlier_call", "")
+        pr3 = np.asarray(pr3, float)
+        out.check(pr3.shape == (n, 3) and bool(np.all(np.abs(pr3 - zax) < 1e-9)), "visualize_rotations:result_depends_on_earlier_call", "")
     ok, cd = call(out, "cone_distance", lambda: geom.cone_distance(srot.from_matrix(M), srot.from_matrix(M[::-1])))
     if ok:
         want = np.array([oracle.angle_between_deg(a_[:, 2], b_[:, 2]) for a_, b_ in zip(M, M[::-1])])
-        out.check(bool(np.all(np.abs(np.asarray(cd, float).reshape(-1) - want) <= TOL)), "cone:result_depends_on_earlier_call", "")
+        cd_ = np.asarray(cd, float).reshape(-1)
+        out.check(cd_.shape == want.shape and bool(np.all(np.abs(cd_ - want) <= TOL)), "cone:result_depends_on_earlier_call", "")
     ok, nv2 = call(out, "euler_angles_to_normals", lambda: geom.euler_angles_to_normals(E.copy()))
     if ok:
         out.check(bool(np.all(np.abs(np.asarray(nv2, float) - zax) < 1e-9)), "normals:result_depends_on_earlier_call", "")
@@ -403,7 +406,21 @@ def run_normals(case, out):
     Nin = N.astype(np.int64) if case.get("int_dtype") else N.copy()
     if case.get("int_dtype"):
         out.label("integer_dtype_normals")
-    inp = Nin if case["as"] == "array" else pd.DataFrame(Nin, columns=["x", "y", "z"])
+    if case["as"] == "array":
+        inp = Nin
+    else:
+        # a frame names its columns: their position, their order and other columns next to them carry no meaning
+        inp = pd.DataFrame(Nin, columns=["x", "y", "z"])
+        layout = (n + int(abs(N[0, 0]) * 7)) % 4
+        if layout == 1:
+            inp = inp[["z", "x", "y"]]
+        elif layout == 2:
+            inp.insert(2, "score", np.linspace(0.1, 0.9, n))
+            inp.insert(0, "tomo_id", 1.0)
+        elif layout == 3:
+            inp = inp[["y", "x", "z"]]
+            inp["class"] = 1
+        out.label(f"frame_layout:{layout}")
     keep_in = inp.copy()
     ok, ang = call(out, "normals_to_euler_angles", lambda: geom.normals_to_euler_angles(inp, output_order=case["order"]))
     if not ok:
